@@ -78,6 +78,13 @@ pub trait LenderGroup {
     fn lend_group(&self) -> &Self::LentG;
 }
 impl LenderGroup for Imp { type LentG = Kid; fn lend_group(&self) -> &Kid { &self.kid } }
+#[cglue_trait]
+pub trait LenderGroupMut {
+    #[wrap_with_group_mut(LeafPlain)]
+    type LentGM: Leaf + 'static;
+    fn lend_group_mut(&mut self) -> &mut Self::LentGM;
+}
+impl LenderGroupMut for Imp { type LentGM = Kid; fn lend_group_mut(&mut self) -> &mut Kid { &mut self.kid } }
 
 /// a context that is NOT reference counted: cloning deep-copies a heap cell, dropping frees it.
 /// A derived object that merely aliases another object's context (instead of owning a clone) ends
